@@ -310,6 +310,22 @@ def run(ctx):
                 {"tie": "queue-mt", "args": ["mt", Q, 2 + r % 5, ctx.seed * 1000 + r, 20000]}))
             break
     ctx.ties.append({"name": "queue-mt (oracle only)", "cases": n, "disagreements": bad})
+    # non-blocking calls while blocking calls are parked (head_counter ahead of tail_counter / queue full with producers waiting)
+    nb = ctx.scale(8, 60)
+    mbad = 0
+    for r in range(nb):
+        args = ["bmixed", 1 + r % 4, 1 + (r // 4) % 3, ctx.seed * 1000 + r]
+        rc, lines, err = ctx.run_driver(exe, args, timeout=120)
+        ctx.count(("queue-bmixed", r), True, "queue-bmixed")
+        t = (lines or ["no output"])[-1].split()
+        if rc != 0 or len(t) < 6 or t[1::2] != ["0", "0", "0"]:
+            mbad += 1
+            ctx.add(Finding("violation", "bqueue-nonblocking-while-parked", "concurrent_bounded_queue(capacity %d) with %d blocking call(s) parked: %s rc=%s (STUCK = try_pop on an empty queue / try_push on a "
+                            "full queue does not return; WRONG = it reports success; ORDER = the parked calls and the following non-blocking calls do not see FIFO order)" % (args[2], args[1], " ".join(t), rc),
+                            {"tie": "queue-bmixed", "args": args}))
+            break
+    ctx.rules.append("queue-bmixed: 1-4 consumers parked in pop() on an empty bounded queue, then try_pop (must fail at once), pushes, FIFO delivery; mirror image with producers parked on a full queue and try_push")
+    ctx.ties.append({"name": "queue-bmixed (oracle only)", "cases": nb, "disagreements": mbad})
     # known finding: abort of a blocked pop (white-box replay of theorem bqueue_abort_refuted_item_overtaken)
     rc, lines, err = ctx.run_driver(exe, ["abortwb"], timeout=60)
     ctx.count(("abortwb",), True, "abortwb")
